@@ -179,6 +179,9 @@ def mutants(seed, args):
                 print(f"mutant {name}: patch does not apply: {cp.stdout[-300:]}{cp.stderr[-300:]}")
                 failures += 1
                 continue
+            if meta.get("not_targeted"):
+                print(f"mutant {name}: not targeted -- {meta['not_targeted'][:150]}")
+                continue
             expect = meta.get("caught_by") or [meta["property"]]
             also = set(meta.get("also_breaks", []))
             if meta.get("expect_silent"):
